@@ -231,7 +231,7 @@ class C13(object):
             grp["col"] = np.concatenate([np.array(f["col"], np.uint16) for f in frames])
             grp["intensity"] = np.concatenate([np.array(f["val"], np.float32) for f in frames])
             grp["nnz"] = np.array([len(f["val"]) for f in frames], np.int32)
-        enginea.apply_cfg(sim, cfg, strict=0, track_conflicts=0, step_cap=20000000)
+        enginea.apply_cfg(sim, cfg, strict=0, track_conflicts=0, step_cap=20000000 + 20000 * sum(len(f["val"]) for f in frames))   # the scan is labelled up to ~15 times (relabelling, frame objects)
         sim.begin_run()
         viol = None
         try:
